@@ -1393,8 +1393,17 @@ func (in *interp) runStub(fr *frame, fi *fnInfo, args []value) value {
 		if !ok {
 			in.unsupported("errif-prefix: path must be concrete")
 		}
-		if strings.HasPrefix(path, strings.Join(parts[1:], ":")) {
-			return in.makeError("stubbed write failure for " + path)
+		// several prefixes may be given, separated by '|'. The error text imitates
+		// go-common.WriteFileAtomic: a prefix containing "bak" fails in the backup stage (".bak"),
+		// any other in the stage that writes the new content (".new")
+		for _, pre := range strings.Split(strings.Join(parts[1:], ":"), "|") {
+			if pre != "" && strings.HasPrefix(path, pre) {
+				stage := ".new"
+				if strings.Contains(pre, "bak") {
+					stage = ".bak"
+				}
+				return in.makeError("Could not write file " + path + stage + ". stubbed write failure")
+			}
 		}
 		return iface{}
 	case "ufwrite":
